@@ -165,6 +165,22 @@ def gen_case(rng, maxfiles, maxdocs):
     mode = "ea" if r < 0.2 else "e"
     flags = {"N": rng.random() < 0.25, "json": rng.random() < 0.2, "nul": rng.random() < 0.12}
     t = rng.random()
+    if t > 0.90:      # provenance against the command-line positions, with zero-document files at every position
+        nf = rng.randrange(2, maxfiles + 2)
+        files = []
+        for _ in range(nf):
+            f = gen_file(rng, maxdocs)
+            z = rng.random()
+            if z < 0.3:
+                f = {"lead": [], "bodies": [], "bad": False}
+            elif z < 0.45:
+                f = {"lead": ["# only a comment\n"], "bodies": [], "bad": False}
+            f["bad"] = False
+            files.append(f)
+        sels = rng.choice([["file_index"], ["filename"], ["document_index"], [".a | filename"], [".b | file_index"], [".a | document_index"],
+                           ["document_index", "file_index", "filename"], [".a | document_index", ".b | file_index"]])
+        mode = rng.choice(["e", "ea"])
+        flags = {"N": rng.random() < 0.5, "json": rng.random() < 0.2, "nul": False}
     if t < 0.07:      # identity, counted through the JSON encoder
         sels, mode, flags = list(IDENT), "e", {"N": False, "json": True, "nul": False}
     elif t < 0.15:    # eval-all on a single-document input
@@ -314,8 +330,15 @@ def run_case(run, c):
 def docs_of(c):
     """(file index, doc index, single-document text, has_result_docs) in order, up to and including the first bad file"""
     out, failed = [], False
+    ea = c["mode"] == "ea"
     for fi, f in enumerate(c["files"]):
         lt = lead_text(f["lead"])
+        if ea and fi > 0 and not f["bodies"]:
+            # eval-all pre-processes leading content of the first file only: a later comment-only file has no document
+            if f["bad"]:
+                failed = True
+                break
+            continue
         if f["bodies"]:
             for k, b in enumerate(f["bodies"]):
                 out.append((fi, k, (lt if k == 0 else "") + BODIES[b], b))
@@ -486,15 +509,19 @@ def oracle_indices(run, c, actual_rc, actual_out):
     if not docs:
         return True
     exp = []
-    for fi, k, text, b in docs:
-        for s in c["sels"]:
-            kind = SEL[s][2]
-            n = run.measure(s, text if b != 0 else "", c["flags"]["json"], null_input=(b == 0))
-            if n is None:
-                return True     # evaluation error (e.g. `.a` on a scalar): not this oracle's business
-            for _ in n:
-                v = {"di": str(k), "fi": str(fi), "fn": ("\"f%d.yml\"" if c["flags"]["json"] else "f%d.yml") % fi}[kind]
-                exp.append(v.encode())
+    ea = c["mode"] == "ea"
+    if ea and failed:
+        return actual_out == b""          # eval-all prints nothing when a file cannot be read
+    # eval: document-major; eval-all: a union evaluates its first selector over all documents, then the next
+    order = [(d, s) for s in c["sels"] for d in docs] if ea else [(d, s) for d in docs for s in c["sels"]]
+    for (fi, k, text, b), s in order:
+        kind = SEL[s][2]
+        n = run.measure(s, BODIES[b] if b != 0 else "", c["flags"]["json"], null_input=(b == 0), preprocess=(b != 9), ea=ea)
+        if n is None:
+            return True     # evaluation error (e.g. `.a` on a scalar): not this oracle's business
+        for _ in n:
+            v = {"di": str(k), "fi": str(fi), "fn": ("\"f%d.yml\"" if c["flags"]["json"] else "f%d.yml") % fi}[kind]
+            exp.append(v.encode())
     got = [l for l in actual_out.replace(b"\0", b"\n").split(b"\n") if l and l != b"---" and not l.startswith(b"#")]
     return got == exp
 
@@ -578,6 +605,9 @@ def run(chk):
             {"files": [F([], [12, 13, 14])], "sels": [".sum = (.n[] as $i ireduce (0; . += $i))"], "mode": "e", "flags": dict(NF)},
             {"files": [F([], [12]), F([], [13]), F([S], [14])], "sels": [".n[] as $i ireduce (0; . += $i)"], "mode": "e", "flags": dict(NF)},
             {"files": [F([], [12, 13]), F([], [1])], "sels": [".k = (1 | . *= 2)"], "mode": "e", "flags": {"N": False, "json": True, "nul": False}},
+            {"files": [F([], [1]), F([], []), F([], [2]), F([], []), F([], [5])], "sels": ["file_index"], "mode": "ea", "flags": {"N": True, "json": False, "nul": False}},
+            {"files": [F([], []), F([], [1, 2]), F(["# c1\n"], []), F([], [5])], "sels": ["document_index", "file_index", "filename"], "mode": "ea", "flags": dict(NF)},
+            {"files": [F([], []), F([], [1, 2]), F(["# c1\n"], []), F([], [5])], "sels": ["document_index", "file_index", "filename"], "mode": "e", "flags": dict(NF)},
             {"files": [F([], [15, 16])], "sels": [".p as $p | .s | test($p)"], "mode": "e", "flags": dict(NF)},
             {"files": [F([], [16]), F([], [15])], "sels": [".p as $p | .s | sub($p; \"X\")"], "mode": "e", "flags": dict(NF)},
             {"files": [F([], [17, 17])], "sels": [".a style = .s | eval(.e)"], "mode": "e", "flags": dict(NF)},
@@ -613,12 +643,11 @@ def run(chk):
             c = cases[i]
             rc, out, err = results[i]
             r = {}
-            if c["mode"] == "e" and not c["flags"]["nul"]:
-                if uses_index(c):
-                    if all(SEL[s][2] != "b" for s in c["sels"]):
-                        r["indices"] = oracle_indices(run_, c, rc, out)
-                else:
-                    r["concat"] = oracle_concat(run_, c, rc, out)
+            if not c["flags"]["nul"] and uses_index(c) and all(SEL[s][2] != "b" for s in c["sels"]) \
+                    and not any(s in COPYIDX for s in c["sels"] if c["mode"] == "ea"):
+                r["indices"] = oracle_indices(run_, c, rc, out)
+            elif c["mode"] == "e" and not c["flags"]["nul"] and not uses_index(c):
+                r["concat"] = oracle_concat(run_, c, rc, out)
             if c["mode"] == "ea" and len(c["files"]) == 1 and len(c["files"][0]["bodies"]) <= 1 and not c["files"][0]["bad"]:
                 rc2, out2, _ = run_case(run_, dict(c, mode="e"))
                 r["ea_single"] = (out == out2 and (rc == 0) == (rc2 == 0), out2)
